@@ -197,29 +197,71 @@ def run(cx, rep):
         O = Origins(flow)
         ins = [c for c in f.calls if is_cache_call(c) == "insert"]
         rep.floor("C14.2", "insert in get_or_fetch_file", len(ins), 1)
-        pab = [c for c in f.calls if (c.path or "").endswith("parse_and_bind")]
-        rfc = [c for c in f.calls if (c.path or "").endswith("read_file_content")]
         gets = [c for c in f.calls if is_cache_call(c) == "get"]
+        # the parse / read steps may sit in f itself or in a private helper it calls (one level): collect them
+        # together with a mapping of the helper's parameters back to f's argument operands
+        def sites(suffix):
+            out = []
+            for c in f.calls:
+                if (c.path or "").endswith(suffix):
+                    out.append((f, O, c, None))
+                for g in (c.local_target or []):
+                    h = F.fns.get(g)
+                    if h is None or not h.mir or h.impl_trait or h.kind == "Closure":
+                        continue
+                    OH = Origins(FnFlow(h))
+                    for c2 in h.calls:
+                        if (c2.path or "").endswith(suffix):
+                            out.append((h, OH, c2, c))
+            return out
+
+        def origin_names(fn, OX, operand, via):
+            """origins of an operand, with a helper's parameters mapped back to the caller's arguments"""
+            res = set()
+            for o in OX.of_operand(operand):
+                if o[0] == "param" and via is not None:
+                    idx = o[1] - 1
+                    if idx < len(via.term["args"]):
+                        res |= O.of_operand(via.term["args"][idx])
+                else:
+                    res.add(o)
+            return res
+
+        def derives_from_call(orgs, suffix, depth=0):
+            for o in orgs:
+                if o[0] != "call":
+                    continue
+                if o[1].endswith(suffix):
+                    return True
+                g = F._callee_gid(f.crate, o[1])
+                h = F.fns.get(g)
+                if h is not None and h.mir and depth < 2 and not h.impl_trait:
+                    if derives_from_call(Origins(FnFlow(h)).of_local(0), suffix, depth + 1):
+                        return True
+            return False
+
+        pab = sites("parse_and_bind")
+        rfc = sites("read_file_content")
         for c in ins:
             ko = O.of_operand(c.term["args"][1])
             vo = O.of_operand(c.term["args"][2])
             rep.ob("C14.2", "fetch/key-is-requested-name", ("param", 2) in ko, "inserted key does not derive from the requested file name", "%s:%s" % (c.file, c.line))
-            rep.ob("C14.2", "fetch/value-is-parse-result", any(o[0] == "call" and o[1].endswith("parse_and_bind") for o in vo),
+            rep.ob("C14.2", "fetch/value-is-parse-result", derives_from_call(vo, "parse_and_bind"),
                    "inserted value does not derive from parse_and_bind", "%s:%s" % (c.file, c.line))
             rep.ob("C14.2", "fetch/value-not-from-cache", not any(o[0] == "call" and "HashMap" in o[1] and o[1].endswith("::get") for o in vo),
                    "inserted value derives from a cache lookup", "%s:%s" % (c.file, c.line))
         rep.ob("C14.2", "fetch/one-parse", len(pab) == 1 and len(rfc) == 1,
-               "expected exactly one parse_and_bind and one read_file_content in get_or_fetch_file, found %d/%d" % (len(pab), len(rfc)), f.loc())
-        for c in pab:
-            name_o = O.of_operand(c.term["args"][1])
-            cont_o = O.of_operand(c.term["args"][2])
+               "expected exactly one parse_and_bind and one read_file_content on the fetch path, found %d/%d" % (len(pab), len(rfc)), f.loc())
+        for (h, OH, c, via) in pab:
+            name_o = origin_names(h, OH, c.term["args"][1], via)
+            cont_o = origin_names(h, OH, c.term["args"][2], via)
             rep.ob("C14.2", "fetch/parse-name-is-requested-name", ("param", 2) in name_o, "parse_and_bind is given another file name", "%s:%s" % (c.file, c.line))
-            rep.ob("C14.2", "fetch/parse-content-is-read-content", any(o[0] == "call" and o[1].endswith("read_file_content") for o in cont_o),
+            rep.ob("C14.2", "fetch/parse-content-is-read-content", derives_from_call(cont_o, "read_file_content"),
                    "parse_and_bind content does not come from read_file_content", "%s:%s" % (c.file, c.line))
             rep.ob("C14.2", "fetch/content-not-from-cache", not any(o[0] == "call" and "HashMap" in o[1] for o in cont_o),
                    "parsed content depends on the cache", "%s:%s" % (c.file, c.line))
-        for c in rfc:
-            o = O.of_operand(c.term["args"][0])
+        for (h, OH, c, via) in rfc:
+            o = origin_names(h, OH, c.term["args"][0], via)
             rep.ob("C14.2", "fetch/read-name-is-requested-name", ("param", 2) in o, "read_file_content is asked for another file", "%s:%s" % (c.file, c.line))
         for c in gets:
             o = O.of_operand(c.term["args"][1])
